@@ -528,6 +528,8 @@ def gen_cases(rng, tier):
         combos = combos[:7]
     else:
         combos = [(s, hk) for s in streams for hk in handler_kinds]
+        rng.shuffle(combos)
+        combos = combos[:45]
     for kinds, hk in combos:
         wire, bodies = mkstream(rng, kinds=kinds)
         cfg = mkcfg(**hk)
@@ -538,7 +540,7 @@ def gen_cases(rng, tier):
                 acts = rng.choice(["eager", "late", "rand"])
                 out.append(mkcase(cfg, schedule(wire, k, disc, segmode, acts, rng, feed_rest=rng.random() < 0.3), bodies))
     # (2) random structured streams (mostly valid + malformed), random schedules
-    for _ in range(700 if quick else 6000):
+    for _ in range(700 if quick else 4000):
         wire, bodies = mkstream(rng)
         cfg = rand_cfg(rng)
         if rng.random() < 0.3:
